@@ -691,7 +691,7 @@ class Bf3File:
                 cls.exec_bf2instrs(bf2_instrs, desc, comments)
             except UnsupportedBf2InstrError:
                 pass
-            except (ValueError, IndexError, KeyError, OverflowError):
+            except (ValueError, IndexError, KeyError, OverflowError, TypeError):
                 raise Bf3FileFormatError("Invalid BF2 Instruction")
             else:
                 content = cls.bf2_convert_payload(bf2_fwdata, bf3tag_fmt)
